@@ -30,6 +30,10 @@ var ifaceImpl = map[string]string{"ConnectionMonitor": "natsConnectionMonitor"}
 // functions that build an object before it is shared
 var ctorFuncs = map[string]bool{"newKVElection": true, "NewNATSConnectionMonitor": true, "NewCircuitBreaker": true}
 
+// composite literals whose address the constructor binds to a variable (resolved for the status-writer table only:
+// the plain fields set inside the literal itself are not accesses of a shared object)
+var ctorLits = map[string]bool{"kvElection": true}
+
 type lockset map[string]string // lock id -> "R" | "W"
 
 func (l lockset) clone() lockset {
@@ -80,6 +84,21 @@ type lockAnalysis struct {
 	calls    []callRec
 	roots    map[string]bool // analysed units that start with no lock held
 	nclosure int
+	atomics  []atomicRec // Store / Load of the atomic status fields of kvElection (status.go)
+	nblk     int
+}
+
+// atomicRec: one Store/Load of an atomic field of kvElection. blk/run identify the straight-line run of simple
+// statements it belongs to (two records with equal fn, blk and run are executed together or not at all);
+// sect is the acquisition of kvElection.mu that is held ("" none), guard tells that on this path the same acquisition
+// was preceded by `if e.isLeader.Load() { ... return }` (the instance does not lead for the rest of the section).
+type atomicRec struct {
+	field, op, arg, fn string
+	held               lockset
+	blk, run           int
+	sect               string
+	guard              bool
+	pos                string
 }
 
 func baseType(t string) string {
@@ -99,6 +118,14 @@ func (la *lockAnalysis) typeOfExpr(e ast.Expr, env map[string]string) string {
 		return la.typeOfExpr(e.X, env)
 	case *ast.StarExpr:
 		return la.typeOfExpr(e.X, env)
+	case *ast.UnaryExpr:
+		// e := &kvElection{...} (the constructor)
+		if e.Op == token.AND {
+			if cl, ok := e.X.(*ast.CompositeLit); ok && ctorLits[exprText(cl.Type)] {
+				return exprText(cl.Type)
+			}
+		}
+		return ""
 	case *ast.SelectorExpr:
 		t := la.typeOfExpr(e.X, env)
 		if t == "" {
@@ -153,10 +180,14 @@ type walker struct {
 	env  map[string]string
 	held lockset
 	dead bool // the path has returned
+	// status.go: straight-line run, current acquisition of kvElection.mu, not-leader guard
+	blk, run  int
+	sect      string
+	guardSect string
 }
 
 func (w *walker) fork() *walker {
-	return &walker{la: w.la, fn: w.fn, env: w.env, held: w.held.clone()}
+	return &walker{la: w.la, fn: w.fn, env: w.env, held: w.held.clone(), blk: w.blk, run: w.run, sect: w.sect, guardSect: w.guardSect}
 }
 
 func (w *walker) access(e *ast.SelectorExpr, write bool) {
@@ -231,10 +262,29 @@ func (w *walker) call(c *ast.CallExpr) {
 			}
 			w.la.acquires = append(w.la.acquires, acquireRec{lock, mode, w.fn, w.held.clone(), w.la.p.pos(c)})
 			w.held[lock] = mode
+			if lock == "kvElection.mu" {
+				w.sect = w.la.p.pos(c)
+			}
 		case "Unlock", "RUnlock":
 			delete(w.held, lock)
+			if lock == "kvElection.mu" {
+				w.sect = ""
+			}
 		}
+		w.run++ // a lock operation ends the straight-line run
 		return
+	}
+	if fld, op := w.atomicOp(c); fld != "" {
+		arg := ""
+		if len(c.Args) > 0 {
+			if bl, ok := c.Args[0].(*ast.BasicLit); ok {
+				arg = bl.Value
+			} else {
+				arg = exprText(c.Args[0])
+			}
+		}
+		w.la.atomics = append(w.la.atomics, atomicRec{fld, op, arg, w.fn, w.held.clone(), w.blk, w.run, w.sect,
+			w.sect != "" && w.guardSect == w.sect, w.la.p.pos(c)})
 	}
 	for _, a := range c.Args {
 		w.expr(a)
@@ -266,6 +316,46 @@ func (w *walker) call(c *ast.CallExpr) {
 	}
 }
 
+// atomicOp recognises e.<field>.Store(x) / Load() / CompareAndSwap / Swap on an atomic field of kvElection.
+func (w *walker) atomicOp(c *ast.CallExpr) (string, string) {
+	sel, ok := c.Fun.(*ast.SelectorExpr)
+	if !ok {
+		return "", ""
+	}
+	switch sel.Sel.Name {
+	case "Store", "Load", "CompareAndSwap", "Swap":
+	default:
+		return "", ""
+	}
+	inner, ok := sel.X.(*ast.SelectorExpr)
+	if !ok {
+		return "", ""
+	}
+	if w.la.typeOfExpr(inner.X, w.env) != "kvElection" {
+		return "", ""
+	}
+	if ft, ok := w.la.p.structs["kvElection"][inner.Sel.Name]; ok && strings.HasPrefix(ft, "atomic.") {
+		return inner.Sel.Name, sel.Sel.Name
+	}
+	return "", ""
+}
+
+// notLeaderGuard: `if e.isLeader.Load() { ...; return ... }` without else.
+func (w *walker) notLeaderGuard(s *ast.IfStmt) bool {
+	if s.Else != nil || s.Init != nil || len(s.Body.List) == 0 {
+		return false
+	}
+	if _, ok := s.Body.List[len(s.Body.List)-1].(*ast.ReturnStmt); !ok {
+		return false
+	}
+	c, ok := s.Cond.(*ast.CallExpr)
+	if !ok {
+		return false
+	}
+	fld, op := w.atomicOp(c)
+	return fld == "isLeader" && op == "Load"
+}
+
 func (la *lockAnalysis) closure(parent *walker, f *ast.FuncLit, async bool) {
 	la.nclosure++
 	name := parent.fn
@@ -276,6 +366,9 @@ func (la *lockAnalysis) closure(parent *walker, f *ast.FuncLit, async bool) {
 		la.roots[name] = true
 	}
 	w := &walker{la: la, fn: name, env: parent.env, held: held}
+	if !async {
+		w.sect, w.guardSect = parent.sect, parent.guardSect
+	}
 	w.block(f.Body.List)
 	if !async {
 		parent.held = w.held
@@ -295,10 +388,78 @@ func (w *walker) assignTarget(e ast.Expr) {
 	}
 }
 
+func simpleStmt(s ast.Stmt) bool {
+	switch s := s.(type) {
+	case *ast.ExprStmt:
+		_, isCall := s.X.(*ast.CallExpr)
+		return isCall
+	case *ast.AssignStmt, *ast.IncDecStmt, *ast.DeclStmt:
+		return true
+	case *ast.IfStmt:
+		// an if whose branches only call and assign (no return, no loop, no store to a status field) does not end the run:
+		// control reaches the statement after it on every path
+		if s.Init != nil && !simpleStmt(s.Init) {
+			return false
+		}
+		if touchesStatus(s) {
+			return false
+		}
+		for _, st := range s.Body.List {
+			if !simpleStmt(st) {
+				return false
+			}
+		}
+		switch e := s.Else.(type) {
+		case nil:
+		case *ast.BlockStmt:
+			for _, st := range e.List {
+				if !simpleStmt(st) {
+					return false
+				}
+			}
+		case *ast.IfStmt:
+			return simpleStmt(e)
+		}
+		return true
+	}
+	return false
+}
+
+// touchesStatus: the statement contains a store to one of the status fields, a lock operation or a function literal.
+func touchesStatus(n ast.Node) bool {
+	found := false
+	ast.Inspect(n, func(x ast.Node) bool {
+		switch x := x.(type) {
+		case *ast.FuncLit:
+			found = true
+		case *ast.CallExpr:
+			if sel, ok := x.Fun.(*ast.SelectorExpr); ok {
+				switch sel.Sel.Name {
+				case "Store", "CompareAndSwap", "Swap":
+					if in, ok := sel.X.(*ast.SelectorExpr); ok && statusFields[in.Sel.Name] {
+						found = true
+					}
+				case "Lock", "Unlock", "RLock", "RUnlock":
+					found = true
+				}
+			}
+		}
+		return !found
+	})
+	return found
+}
+
 func (w *walker) block(list []ast.Stmt) {
+	saveBlk, saveRun := w.blk, w.run
+	w.la.nblk++
+	w.blk, w.run = w.la.nblk, 0
+	defer func() { w.blk, w.run = saveBlk, saveRun }()
 	for _, s := range list {
 		if w.dead {
 			return
+		}
+		if !simpleStmt(s) {
+			w.run++
 		}
 		w.stmt(s)
 	}
@@ -402,6 +563,9 @@ func (w *walker) stmt(s ast.Stmt) {
 			}
 		}
 		w.branches(bodies, exhaustive)
+		if w.sect != "" && w.held["kvElection.mu"] == "W" && w.notLeaderGuard(s) {
+			w.guardSect = w.sect
+		}
 	case *ast.ForStmt:
 		if s.Init != nil {
 			w.stmt(s.Init)
@@ -514,6 +678,11 @@ func coqLockset(l lockset) string {
 }
 
 func genLocks(p *pkgInfo) string {
+	la, entryMust, entryMay := analyseLocks(p)
+	return emitLocks(la, entryMust, entryMay)
+}
+
+func analyseLocks(p *pkgInfo) (*lockAnalysis, func(string) lockset, func(string) lockset) {
 	la := &lockAnalysis{p: p, roots: map[string]bool{}}
 	var names []string
 	for n := range p.funcs {
@@ -653,6 +822,10 @@ func genLocks(p *pkgInfo) string {
 		}
 		return lockset{}
 	}
+	return la, entryMust, entryMay
+}
+
+func emitLocks(la *lockAnalysis, entryMust, entryMay func(string) lockset) string {
 	var b strings.Builder
 	b.WriteString("From LE Require Import Base Locks.\nOpen Scope string_scope.\n\n")
 	b.WriteString("Definition accesses : list access :=\n  [")
